@@ -103,6 +103,91 @@ theorem C10_file_tree_paths_exact (writes : List (String × String)) (q : String
 /-- non-vacuity: a path written twice appears once, the other one is kept -/
 example : (fileTree [("+a/f.m", "1"), ("g.m", "2"), ("+a/f.m", "3")]).map (·.1) = ["+a/f.m", "g.m"] := by decide
 
+/-- content of path `q` in an association list (first entry) -/
+def contentOf (q : String) : List (String × String) → Option String
+  | [] => none
+  | (a, u) :: r => if a = q then some u else contentOf q r
+
+theorem contentOf_update (q p t : String) (acc : List (String × String)) :
+    contentOf q (acc.map fun (a, u) => if a == p then (a, t) else (a, u)) =
+      if p = q then (contentOf q acc).map (fun _ => t) else contentOf q acc := by
+  induction acc with
+  | nil => simp [contentOf]
+  | cons x r ih =>
+    obtain ⟨a, u⟩ := x
+    simp only [List.map_cons, beq_iff_eq]
+    by_cases hap : a = p <;> by_cases haq : a = q <;> by_cases hpq : p = q <;>
+      simp_all [contentOf]
+
+theorem contentOf_append (q : String) (a b : List (String × String)) :
+    contentOf q (a ++ b) = (contentOf q a).or (contentOf q b) := by
+  induction a with
+  | nil => simp [contentOf]
+  | cons x r ih =>
+    obtain ⟨c, u⟩ := x
+    by_cases h : c = q <;> simp [contentOf, h, ih]
+
+theorem contentOf_none_of_not_any (p : String) (acc : List (String × String)) (h : ¬ acc.any (·.1 == p) = true) :
+    contentOf p acc = none := by
+  induction acc with
+  | nil => rfl
+  | cons x r ih =>
+    obtain ⟨c, u⟩ := x
+    simp only [List.any_cons, Bool.or_eq_true, not_or, beq_iff_eq] at h
+    simp [contentOf, h.1, ih (by simpa using h.2)]
+
+theorem contentOf_some_of_any (p : String) (acc : List (String × String)) (h : acc.any (·.1 == p) = true) :
+    ∃ v, contentOf p acc = some v := by
+  induction acc with
+  | nil => simp at h
+  | cons x r ih =>
+    obtain ⟨c, u⟩ := x
+    by_cases hc : c = p
+    · exact ⟨u, by simp [contentOf, hc]⟩
+    · simp only [List.any_cons, Bool.or_eq_true, beq_iff_eq, hc, false_or] at h
+      obtain ⟨v, hv⟩ := ih h
+      exact ⟨v, by simp [contentOf, hc, hv]⟩
+
+theorem fileTree_go_content (q : String) : ∀ (ws acc : List (String × String)),
+    contentOf q (fileTree.go acc ws) = (contentOf q ws.reverse).or (contentOf q acc) := by
+  intro ws
+  induction ws with
+  | nil => intro acc; simp [fileTree.go, contentOf]
+  | cons w r ih =>
+    intro acc
+    obtain ⟨p, t⟩ := w
+    unfold fileTree.go
+    rw [List.reverse_cons, contentOf_append]
+    split
+    · next hany =>
+      rw [ih, contentOf_update]
+      cases hr : contentOf q r.reverse with
+      | some v => simp
+      | none =>
+        by_cases hpq : p = q
+        · subst hpq
+          obtain ⟨v, hv⟩ := contentOf_some_of_any p acc hany
+          simp [hv, contentOf]
+        · simp [hpq, contentOf]
+    · next hnot =>
+      rw [ih, contentOf_append]
+      cases hr : contentOf q r.reverse with
+      | some v => simp
+      | none =>
+        by_cases hpq : p = q
+        · subst hpq
+          simp [contentOf_none_of_not_any p acc hnot, contentOf]
+        · simp [hpq, contentOf]
+
+/-- **the last write wins**: the content of every path in the toolbox is the text of the LAST write to it -/
+theorem C10_file_tree_last_write_wins (writes : List (String × String)) (q : String) :
+    contentOf q (fileTree writes) = contentOf q writes.reverse := by
+  unfold fileTree
+  rw [fileTree_go_content]
+  simp [contentOf]
+/-- non-vacuity: `+a/f.m` written twice keeps the second text, at its first position -/
+example : fileTree [("+a/f.m", "1"), ("g.m", "2"), ("+a/f.m", "3")] = [("+a/f.m", "3"), ("g.m", "2")] := by decide
+
 /-- exactly one MEX source is produced, named `<module>_wrapper.cpp` -/
 theorem C10_one_mex_source (cfg : MCfg) (im : List IDecl) (files : List (String × String))
     (h : wrapModule cfg im = .ok files) : (files.filter (fun f => f.1 == cfg.wrapper ++ ".cpp")).length ≤ 1 := by
